@@ -13,7 +13,11 @@ if ! git apply --check "$P" 2>/dev/null; then
 else
   git apply "$P"
 fi
+# the evidence file is rewritten by every run: keep the one from the unchanged tree and put it back afterwards
+EV=/verif/evidence/$PID.json; KEEP=/verif/target/selftest_keep_$PID.json
+[ -f "$EV" ] && cp "$EV" "$KEEP"
 out=$(cd /verif && ./check "$PID" "$TIER" 2>&1); rc=$?
+[ -f "$KEEP" ] && mv "$KEEP" "$EV"
 git checkout -q -- . ; find src -name '*.orig' -delete 2>/dev/null; find src -name '*.rej' -delete 2>/dev/null
 nv=$(printf '%s\n' "$out" | grep -c '^VIOLATION')
 first=$(printf '%s\n' "$out" | grep -A2 '^VIOLATION' | head -3 | tr '\n' ' ' | cut -c1-300)
